@@ -15,6 +15,25 @@ TEXTS = {
     "GREATERTHAN": [">", ">="], "AND_OP": ["AND"], "OR_OP": ["OR"], "NOT": ["NOT"], "TO": ["TO"],
 }
 WORDLIKE = {"TERM", "AND_OP", "OR_OP", "NOT", "TO"}
+#: texts that probe token boundaries and the reserved-word rule: escapes, lower / mixed case and embedded reserved words, phrases and
+#: regexes that contain operators, quotes or end in an escaped backslash
+TRICKY = {"TERM": ["and", "Or", "nOT", "to", "ANDROID", "NOTE", "TOTO", "\\AND", "a\\:b", "te?t*", "x\\ y", "2015-12-19T10:30", "b\\\\", "OR1", "\\-z", "k\\(l\\)"],
+          "PHRASE": ['"a\\\\"', '"x \\" y"', '"AND"', '"a:b (c) OR"', '""', '"\\\\\\""'],
+          "REGEX": ["/a\\\\/", "/x\\/y/", "/[a-z]+ OR (b)/", "//"]}
+
+
+def render_tricky(seq, variant=0):
+    """like render(sep=' ') with the tricky texts for terms, phrases and regexes"""
+    out = []
+    for i, t in enumerate(seq):
+        if t in TRICKY:
+            txt = TRICKY[t][(variant * 7 + i * 3) % len(TRICKY[t])]
+        else:
+            txt = TEXTS[t][(i + variant) % len(TEXTS[t])] if t in ("APPROX", "BOOST", "LBRACKET", "RBRACKET", "LESSTHAN", "GREATERTHAN") else TEXTS[t][0]
+        if out and t != "COLUMN":
+            out.append(" ")
+        out.append(txt)
+    return "".join(out)
 
 
 def step(stack, tok):
